@@ -200,7 +200,7 @@ impl Check for HostileCheck {
     fn rule(&self) -> String {
         format!(
             "enumerated part: every burst of length 0..{MAX_ENUM_LEN} over {{-1,0,1,NaN,inf}} ({} sequences) through Midpointer and through Wpcr; every AU header with data offset 0..64 x encoding {{0,1,2,3,4,27}} x channels {{0,1,2}} ({} headers) through AuDecode. \
-             seeded part: one run = one corruption fault on a valid artefact or one hostile stream, delivered through the drip-feed rig: AU streams (truncation at any byte, field mutations, bit flips, garbage), SigMF metadata (missing/mistyped fields, broken JSON) and archives (truncated, zero-length members, duplicate members, directory/symlink members, missing data), arbitrary bit streams with sync tags for the IL2P and HDLC deframers, packets for VecToStream / Midpointer / Wpcr (length 0..8 and longer), burst tags of wrong type or order for StreamToPdu, NaN/infinity/denormal/huge sample streams for SymbolSync, ZeroCrossing, FIR, FFT filter, Hilbert, quadrature demodulators, IIR, AuEncode, CMA equaliser, burst tagger. \
+             seeded part: one run = one corruption fault on a valid artefact or one hostile stream, delivered through the drip-feed rig: AU streams (truncation at any byte, field mutations, bit flips, garbage), SigMF metadata (missing/mistyped fields, broken JSON) and archives (truncated, zero-length members, duplicate members, directory/symlink members, missing data), arbitrary bit streams with sync tags for the IL2P and HDLC deframers, packets for VecToStream / Midpointer / Wpcr (length 0..8 and longer), burst tags of wrong type or order for StreamToPdu, arbitrary byte streams for RtlSdrDecode, NaN/infinity/denormal/huge sample streams for SymbolSync, ZeroCrossing, FIR, FFT filter, Hilbert, quadrature demodulators, IIR, AuEncode, CMA equaliser, burst tagger. \
              Outcome must be normal output, dropped data or an Err value: no panic, no stuck packet, window accounting intact. \
              non-trivial = the block under test processed the corrupted artefact; distinct = case index / hash of the decision list",
             n_packets(),
@@ -288,7 +288,7 @@ impl Check for HostileCheck {
         }
         // Seeded part.
         let small = *src.pick(&[4096usize, 4096, 8192]);
-        let which = src.below(16);
+        let which = src.below(17);
         ctx.ev(|| format!("C15 seeded case {which} stream {small}"));
         let r = solo.with(|| -> RunResult {
             rustradio::verif::set_stream_size(small);
@@ -303,6 +303,19 @@ impl Check for HostileCheck {
                         let c = au_case(b, desc);
                         let kind_err_before = ctx.counters.get("rig_block_err").copied().unwrap_or(0);
                         let _ = kind_err_before;
+                        run_stream_block(c, &solo, src, ctx)
+                    }
+                    16 => {
+                        // Arbitrary bytes (every value, runs of 0x00 / 0xff as
+                        // from a clipping receiver) for the raw I/Q decoder.
+                        ctx.count("hostile_bytes");
+                        let n = gen_len(src, small);
+                        let data = gen_u8_vec(src, n);
+                        let (p, r) = StreamIn::new(data, vec![]);
+                        let (b, o) = RtlSdrDecode::new(r);
+                        let mut c = Case::new("RtlSdrDecode", format!("len {n}"), Box::new(b));
+                        c.ins = vec![p];
+                        c.outs = vec![StreamOut::new(o)];
                         run_stream_block(c, &solo, src, ctx)
                     }
                     2 => sigmf_meta_fault(src, ctx),
@@ -538,7 +551,10 @@ fn sigmf_archive_fault(src: &mut Src, ctx: &mut RunCtx, solo: &Solo) -> RunResul
     let dir = tempfile::tempdir().map_err(|e| Violation::new("HARNESS-PANIC tempdir", e.to_string()))?;
     let path = dir.path().join("capture.sigmf");
     let n = src.below(300);
-    let data: Vec<u8> = (0..n * 8).map(|i| i as u8).collect();
+    // Whole samples, or with a few stray bytes at the end (a recording cut
+    // off in mid-sample).
+    let stray = if src.chance(1, 3) { src.range(1, 7) } else { 0 };
+    let data: Vec<u8> = (0..n * 8 + stray).map(|i| i as u8).collect();
     let fault = src.below(10);
     let bytes: Vec<u8> = match fault {
         9 => {
